@@ -88,7 +88,7 @@ func C14(ctx *core.Ctx) int {
 	}
 	st := &c14Stats{}
 	samples := &core.Sample{N: 8}
-	stateCap := 400
+	stateCap := 60
 	if ctx.Thorough() {
 		stateCap = 5000
 	}
